@@ -41,6 +41,7 @@ pub struct Ctx {
     pub scratch: PathBuf,
     pub exe: PathBuf,
     time_checks: u64,
+    pub table: String,
 }
 
 pub fn fnv(s: &[u8]) -> u64 {
@@ -62,7 +63,7 @@ impl Ctx {
             distinct: HashSet::new(), index: 0, start: Instant::now(),
             deadline: Instant::now() + Duration::from_secs(budget_s), capped: false,
             stages_done: vec![], stages_capped: vec![], notes: vec![], stage: String::new(), stage_capped: false,
-            beat, hb_file, scratch, exe: std::env::current_exe().unwrap_or_else(|_| PathBuf::from("fml")), time_checks: 0,
+            beat, hb_file, scratch, exe: std::env::current_exe().unwrap_or_else(|_| PathBuf::from("fml")), time_checks: 0, table: String::new(),
         };
         ctx.spawn_watchdog();
         ctx
@@ -179,6 +180,14 @@ impl Ctx {
         }
     }
 
+    /// one line of the fingerprint table (compared by the driver across build profiles / shardings)
+    pub fn fingerprint(&mut self, id: &str, value: &str) {
+        self.table.push_str(id);
+        self.table.push('\t');
+        self.table.push_str(&value.replace('\n', "\\n").replace('\t', "\\t"));
+        self.table.push('\n');
+    }
+
     pub fn note(&mut self, s: &str) { if !self.notes.iter().any(|n| n == s) { self.notes.push(s.to_string()) } }
 
     pub fn finish(mut self) {
@@ -188,6 +197,7 @@ impl Ctx {
         let mut buf: Vec<u8> = Vec::with_capacity(self.distinct.len() * 8);
         for h in &self.distinct { buf.extend_from_slice(&h.to_le_bytes()) }
         let _ = std::fs::write(self.out.with_extension("distinct"), &buf);
+        if !self.table.is_empty() { let _ = std::fs::write(self.out.with_extension("table"), self.table.as_bytes()); }
         let mut samples = self.samples.clone();
         if let Some(l) = self.last_sample.take() { samples.push(l) }
         let report = json!({
